@@ -40,7 +40,6 @@ Definition dyn_methods (gd : gdyn) : list ident :=
 Definition dyn_coherent (g : gir) : bool :=
   match gr_dyn g with
   | Some gd => negb (has_dup (dyn_methods gd)) && negb (has_dup (map (fun e => fst (fst e)) (gd_events gd)))
-               && negb (is_nil (gd_events gd))
   | None => true
   end.
 
@@ -59,3 +58,31 @@ Definition accept_code (feat : bool) (d : defn) : nat :=
       | ENoTransitions => 13 | ENoSources => 14 | ESuperNoInitial => 15 | ETargetUndeclared => 16
       | ESourceUndeclared => 17 | ESourceEmpty => 18 end)
   end.
+
+(* ---------- hygiene: user identifiers against the identifiers the expansion binds (C18) ---------- *)
+
+(* In generic-context mode the expansion binds the type parameter `C` in every impl header, in the
+   machine struct, the AnyState enum and the Dynamic wrapper; `S` is bound in the machine struct and
+   in the accessor impl.  A user identifier that is used where such a parameter is in scope and has
+   the same name resolves to the parameter, not to the user's item. *)
+Fixpoint data_types_of_item (it : sitem) : list ty :=
+  match it with
+  | ILeaf _ (Some t) => [t]
+  | ISuper _ d body => (match d with Some t => [t] | None => [] end) ++ flat_map data_types_of_item body
+  | _ => []
+  end.
+
+Definition payload_types (m : machine) : list ty :=
+  flat_map (fun ev => match e_payload ev with Some t => [t] | None => [] end) (m_events m).
+
+Definition captured_names (m : machine) : list ident :=
+  match m_context m with
+  | None =>       (* generic context: `C` and `S` are parameters *)
+      filter (fun x => String.eqb x "C")
+             (m_states m ++ all_superstates (m_hier m) ++ map ss_ty (m_storage m) ++ payload_types m)
+      ++ filter (fun x => String.eqb x "S") (map ss_ty (m_storage m))
+  | Some _ =>     (* concrete context: only `S` is a parameter, and only where data types are mentioned *)
+      filter (fun x => String.eqb x "S") (map ss_ty (m_storage m))
+  end.
+
+Definition hygienic (m : machine) : bool := is_nil (captured_names m).
